@@ -43,9 +43,9 @@ struct pfixup_t {
 };
 
 #if 0
-static con::Container< const_str > archivedEvents;
-static con::Container< const_str > archivedStrings;
-static con::Container< pfixup_t * > archivedPointerFixup;
+static thread_local con::Container< const_str > archivedEvents;
+static thread_local con::Container< const_str > archivedStrings;
+static thread_local con::Container< pfixup_t * > archivedPointerFixup;
 
 void ArchiveOpcode(Archiver& arc, opval_t *code)
 {
